@@ -46,6 +46,14 @@
 (*           (ghost dev_lateflush).  Repaired: reporters serialised by a mutex (FixReport), Start *)
 (*           reports once more after both copiers have ended (FixFlush).                          *)
 (*                                                                                                *)
+(* Further completion paths: Tunnel.Start racing with Close (StCall / StSetCtx / StCas / StSpawn, *)
+(* start state "Starting"); the bridge's parent context cancelled while data keeps flowing (CCtx: *)
+(* the copier leaves at its periodic ctx.Done() check with a pending batch) and more than the     *)
+(* 1 MiB batch threshold moved (CDataBig).  Two hypothetical designs, one careless edit away from *)
+(* the code, are in the suites so that TLC exhibits what the driver's schedules and hammers look  *)
+(* for: "splitlatch" (latch tested outside the lock: LLatchLoad / LLatchStore, dev_split) and     *)
+(* "casfirst" (Start's CAS before SetCtx: dev_ctxlate); Dispose_show2.cfg shows both violations.  *)
+(*                                                                                                *)
 (* Properties: AtMostOnce, ExactlyOnce, NoOverReport, TrafficExact, ClosedError, NoPanic,         *)
 (* LeakFree (bottom of the module); the cfg checks Inv* = property or, in a configuration of the  *)
 (* code as written, a listed deviation.  Goroutine births/deaths are tracked in liveG.            *)
